@@ -61,14 +61,14 @@ def strategy(ctx):
 
 
 def run(ctx):
-    n = 24 if ctx.quick else 300
+    n = 20 if ctx.quick else 300
     cases = configs.collect(strategy(ctx), ctx.seed, n)
     cases += runcheck.known_cases("C03")
     return runcheck.execute_cases(ctx, "c03", cases, make_history, judge)
 
 
 def health(ctx, stats):
-    need = {"completed": 8, "resumed": 2, "strict:True": 3, "strict:False": 3}
+    need = {"completed": 6, "resumed": 1, "strict:True": 2, "strict:False": 2}
     if not ctx.quick:
         need = {"completed": 120, "resumed": 30, "strict:True": 50,
                 "strict:False": 50, "iid:False": 20, "reparam:None": 20}
